@@ -51,7 +51,7 @@ Refused ==            \* the local handshake itself was refused: nothing may fol
 AppWrite(n) ==
   /\ phase = "open" /\ appClosed = "no"
   /\ sentUp' = sentUp + n
-  /\ cleanTgt' = (cleanTgt /\ tgtClosed # "close")      \* as in TgtWrite
+  /\ cleanTgt' = (cleanTgt /\ tgtClosed \notin {"close", "rst"})      \* as in TgtWrite
   /\ UNCHANGED <<phase, want, reach, dials, gotUp, sentDown, gotDown, appClosed, tgtClosed, cleanApp, appSaw, tgtSaw, fault, lapsed>>
 
 TgtWrite(n) ==
@@ -70,11 +70,17 @@ AppClose(how) ==
   /\ cleanApp' = (how = "fin" \/ (how = "close" /\ gotDown = sentDown))
   /\ UNCHANGED <<phase, want, reach, dials, sentUp, gotUp, sentDown, gotDown, tgtClosed, cleanTgt, appSaw, tgtSaw, fault, lapsed>>
 
-TgtClose(how) ==
+(* `acked` (target side only): the observer knows that everything the target had written was acknowledged by the server's
+   kernel when the target reset its connection (nothing left in its send queue).  What the relay has RECEIVED it delivers:
+   a server turns a reset from its target into an orderly end of that direction, so after such a reset the application is
+   owed the complete answer just as after a close.  (A reset by the application is different: the client's pumps end with
+   an error and the flow is dropped at once - nothing is owed.)  Without that knowledge a reset owes nothing.          *)
+TgtCloseA(how, acked) ==
   /\ Dialed /\ tgtClosed = "no" /\ how \in Hows
   /\ tgtClosed' = how
-  /\ cleanTgt' = (how = "fin" \/ (how = "close" /\ gotUp = sentUp))
+  /\ cleanTgt' = (how = "fin" \/ (how = "close" /\ gotUp = sentUp) \/ (how = "rst" /\ acked /\ gotUp = sentUp))
   /\ UNCHANGED <<phase, want, reach, dials, sentUp, gotUp, sentDown, gotDown, appClosed, cleanApp, appSaw, tgtSaw, fault, lapsed>>
+TgtClose(how) == TgtCloseA(how, FALSE)
 
 Fault ==
   /\ phase = "open" /\ ~fault
